@@ -7,15 +7,19 @@ func vt(fn string, kv ...string) Inst { return Inst{Pkg: "x/vesting/types", Fn: 
 // Specs is the table of registered checks: which harness instances (= structural bounds) run per tier.
 func Specs() map[string]*PropSpec {
 	m := map[string]*PropSpec{}
+	vk := func(fn string, kv ...string) Inst {
+		return Inst{Pkg: "x/vesting/keeper", Fn: fn, Params: pm(kv...), EngineReplay: true}
+	}
 	m["C09"] = &PropSpec{
 		ID:   "C09",
-		Pkgs: []string{"./x/vesting/types"},
+		Pkgs: []string{"./x/vesting/types", "./x/vesting/keeper"},
 		Quick: []Inst{
 			vt("VerifC09_Read", "n", "3"), vt("VerifC09_Read", "n", "2", "denoms", "2"),
 			vt("VerifC09_Mono", "n", "3"),
 			vt("VerifC09_Disjunct", "na", "2", "nb", "2"), vt("VerifC09_Disjunct", "na", "1", "nb", "2", "denoms", "2"),
 			vt("VerifC09_Conjunct", "na", "2", "nb", "2"), vt("VerifC09_Conjunct", "na", "2", "nb", "1", "denoms", "2"),
 			vt("VerifC09_AccountSplit", "nl", "2", "nv", "2"), vt("VerifC09_Clawback", "nl", "2", "nv", "2"), vt("VerifC09_Clawback", "nl", "1", "nv", "2", "denoms", "2"),
+			vk("VerifC09_MergeGrant"), vk("VerifC09_MergeGrant", "lock", "2", "glock", "2"), vk("VerifC09_ClawbackMsg"), vk("VerifC09_FunderUpdate"),
 		},
 		Thorough: []Inst{
 			vt("VerifC09_Read", "n", "5"), vt("VerifC09_Read", "n", "4", "denoms", "2"),
@@ -23,13 +27,15 @@ func Specs() map[string]*PropSpec {
 			vt("VerifC09_Disjunct", "na", "3", "nb", "3"), vt("VerifC09_Disjunct", "na", "2", "nb", "2", "denoms", "2"),
 			vt("VerifC09_Conjunct", "na", "3", "nb", "3"), vt("VerifC09_Conjunct", "na", "2", "nb", "2", "denoms", "2"),
 			vt("VerifC09_AccountSplit", "nl", "3", "nv", "3"), vt("VerifC09_Clawback", "nl", "3", "nv", "3"), vt("VerifC09_Clawback", "nl", "2", "nv", "2", "denoms", "2"),
+			vk("VerifC09_MergeGrant", "lock", "2", "vest", "2", "glock", "2", "gvest", "1"), vk("VerifC09_MergeGrant", "lock", "1", "vest", "2", "glock", "2", "gvest", "2"), vk("VerifC09_ClawbackMsg", "lock", "3", "vest", "2"), vk("VerifC09_FunderUpdate"),
 		},
 		Bounds: map[string]string{
-			"quick":    "period lists of length <= 3 (read/monotone), 2+2 (merge/cap) with 1 denom and 2+1 with 2 denoms; start in [0,2^60], each length in [0,2^56], read time in [0,2^61], each amount in [0,2^128)",
+			"quick":    "period lists of length <= 3 (read/monotone), 2+2 (merge/cap) with 1 denom and 2+1 with 2 denoms; start in [0,2^60], each length in [0,2^56], read time in [0,2^61], each amount in [0,2^128); keeper level: ApplyVestingSchedule(merge) of a grant with its own start time and <= 2 lockup / 1 vesting periods into an account with <= 2 lockup / 1 vesting periods, the Clawback message on a 2+2 account (signer = funder or not, explicit or default destination), UpdateVestingFunder followed by a clawback attempt of the old funder; start times in [0,2^40], lengths in [0,2^36], amounts < 2^100",
 			"thorough": "period lists of length <= 5 (read/monotone), 3+3 with 1 denom and 2+2 with 2 denoms (merge/cap); same value ranges",
 		},
-		Outside:     []string{"more periods than the structural bound", "times beyond 2^61 s (int64 overflow of start+sum of lengths)", "more than 2 denominations"},
-		Assumptions: []string{"theory summaries of sdk.Coins / math.Int (validated per run by replayed traces)", "period amounts are valid-or-empty Coins (non-negative)"},
+		Outside:     []string{"more periods than the structural bound", "times beyond 2^61 s (int64 overflow of start+sum of lengths)", "more than 2 denominations", "keeper level: delegated coins of the account (staking getters return zero), sequences of more than one keeper message (each message is decided from an arbitrary valid account), the exact-sum clause of a merge before both schedules have started (not required by the statement)"},
+		Assumptions: []string{"theory summaries of sdk.Coins / math.Int (validated per run by replayed traces)", "period amounts are valid-or-empty Coins (non-negative)", "keeper level: account keeper = map, bank = ledger that refuses debits below LockedCoins, telemetry counters no-ops"},
+		Stubs:       []string{"c09AK", "c09Bank", "SDK staking getters (GetDelegatorBonded, GetDelegatorUnbonding, BondDenom)"},
 	}
 	fk := func(fn string, kv ...string) Inst { return Inst{Pkg: "x/feemarket/keeper", Fn: fn, Params: pm(kv...)} }
 	c17 := []Inst{fk("VerifC17_Formula"), fk("VerifC17_Bounds"), fk("VerifC17_Monotone"), fk("VerifC17_BeginBlock"), fk("VerifC17_EndBlock")}
@@ -51,12 +57,12 @@ func Specs() map[string]*PropSpec {
 		ID: "C11", Pkgs: []string{"./x/liquidvesting/types", "./x/liquidvesting/keeper"},
 		Quick: []Inst{lt("VerifC11_Split", "n", "1"), lt("VerifC11_Split", "n", "3"), lt("VerifC11_Split", "n", "2", "denoms", "2"),
 			lt("VerifC11_NoEarlyUnlock", "n", "1"), lt("VerifC11_NoEarlyUnlock", "n", "2"), lt("VerifC11_NoEarlyUnlock", "n", "3"),
-			lk("VerifC11_LiquidateStep", "periods", "2"), lk("VerifC11_RedeemStep", "denomPeriods", "1")},
+			lk("VerifC11_LiquidateStep", "periods", "2"), lk("VerifC11_RedeemStep", "denomPeriods", "1"), lk("VerifC11_RedeemStep", "denomPeriods", "2", "recipient", "1")},
 		Thorough: []Inst{lt("VerifC11_Split", "n", "1"), lt("VerifC11_Split", "n", "3"), lt("VerifC11_Split", "n", "5"), lt("VerifC11_Split", "n", "3", "denoms", "2"),
 			lt("VerifC11_NoEarlyUnlock", "n", "1"), lt("VerifC11_NoEarlyUnlock", "n", "2"), lt("VerifC11_NoEarlyUnlock", "n", "3"), lt("VerifC11_NoEarlyUnlock", "n", "4"),
 			lk("VerifC11_LiquidateStep", "periods", "3"), lk("VerifC11_RedeemStep", "denomPeriods", "2"), lk("VerifC11_RedeemStep", "denomPeriods", "1", "toPeriods", "2")},
 		Bounds: map[string]string{
-			"quick":    "lockup schedules of <= 3 periods (split and liquid-schedule construction), amounts in [0,2^100), subtrahend in [0,2^100), start in [0,2^60], lengths in [0,2^56], liquidation and read times in [0,2^61]; keeper level (inductive step from an arbitrary module state satisfying the backing invariant: one existing liquid token with a symbolic schedule, partly held as ERC20 tokens, arbitrary module surplus): one Liquidate from a clawback account with <= 2 lockup periods, one Redeem of a 1-period token to oneself / a plain EVM account / an existing clawback account with its own 1-period schedule; start times in [0,2^40], lengths in [1,2^36], amounts < 2^100, every observation instant",
+			"quick":    "lockup schedules of <= 3 periods (split and liquid-schedule construction), amounts in [0,2^100), subtrahend in [0,2^100), start in [0,2^60], lengths in [0,2^56], liquidation and read times in [0,2^61]; keeper level (inductive step from an arbitrary module state satisfying the backing invariant: one existing liquid token with a symbolic schedule, partly held as ERC20 tokens, arbitrary module surplus): one Liquidate from a clawback account with <= 2 lockup periods, one Redeem of a 1-period token to oneself / a plain EVM account / an existing clawback account with its own 1-period schedule, and of a 2-period token to a plain EVM account; start times in [0,2^40], lengths in [1,2^36], amounts < 2^100, every observation instant",
 			"thorough": "split up to 5 periods, liquid-schedule construction up to 4 periods; Liquidate with 3 lockup periods, Redeem of a 2-period token and into a 2-period account; same value ranges",
 		},
 		Outside:     []string{"sequences of more than one Liquidate/Redeem are covered only through the inductive invariant (escrow = total liquid supply, recorded schedule sums to supply), not enumerated", "the ERC20 side is a 1:1 escrow ledger (the real conversion is C10's subject)", "delegated coins of the recipient (staking getters return zero)", "more periods than the bound", "liquidation at or before the schedule start (rejected by Liquidate because nothing is vested then)"},
@@ -90,13 +96,13 @@ func Specs() map[string]*PropSpec {
 		Stubs:       []string{"c12Bank", "zzverif.MemStore"},
 	}
 	m["C08"] = &PropSpec{
-		ID: "C08", Pkgs: []string{"./x/vesting/types", "./x/staking/keeper"},
+		ID: "C08", Pkgs: []string{"./x/vesting/types", "./x/staking/keeper", "./x/vesting/keeper"},
 		Quick: []Inst{vt("VerifC08_LockedCoins", "nl", "2", "nv", "2"), vt("VerifC08_LockedCoins", "nl", "1", "nv", "2", "denoms", "2"), vt("VerifC09_Clawback", "nl", "2", "nv", "2"),
-			{Pkg: "x/staking/keeper", Fn: "VerifC08_Delegate", Params: pm("nv", "2")}},
+			{Pkg: "x/staking/keeper", Fn: "VerifC08_Delegate", Params: pm("nv", "2")}, vk("VerifC09_MergeGrant", "lock", "2", "glock", "2"), vk("VerifC09_ClawbackMsg")},
 		Thorough: []Inst{vt("VerifC08_LockedCoins", "nl", "3", "nv", "3"), vt("VerifC08_LockedCoins", "nl", "2", "nv", "2", "denoms", "2"), vt("VerifC09_Clawback", "nl", "3", "nv", "3"),
 			{Pkg: "x/staking/keeper", Fn: "VerifC08_Delegate", Params: pm("nv", "4")}},
 		Bounds: map[string]string{
-			"quick":    "LockedCoins and post-clawback locking for accounts with <= 2 lockup and <= 2 vesting periods (1-2 denoms), arbitrary tracked delegations, arbitrary block time; delegation wrapper: <= 2 vesting periods, arbitrary balance/amount/time, Delegate and CreateValidator",
+			"quick":    "LockedCoins and post-clawback locking for accounts with <= 2 lockup and <= 2 vesting periods (1-2 denoms), arbitrary tracked delegations, arbitrary block time; delegation wrapper: <= 2 vesting periods, arbitrary balance/amount/time, Delegate and CreateValidator; the locked amount after merging a grant (real addGrant) and after the Clawback message, at every instant",
 			"thorough": "<= 3 + 3 periods; delegation wrapper <= 4 vesting periods",
 		},
 		Outside: []string{"that the SDK bank keeper refuses debits beyond balance - LockedCoins on every path (SDK code; the property reduces to LockedCoins being right, which is what is decided)", "the eth-route ante pre-check and the EVM debit path (planned with the x/evm harnesses)", "delegation through grants / the staking precompile (they end in the same message server, checked here)"},
@@ -196,18 +202,20 @@ func Specs() map[string]*PropSpec {
 		Stubs:       []string{"sLedger (statedb.Keeper)"},
 	}
 	m["C02"] = &PropSpec{
-		ID: "C02", Pkgs: []string{"./x/evm/statedb", "./precompiles/staking", "./precompiles/distribution"},
+		ID: "C02", Pkgs: []string{"./x/evm/statedb", "./precompiles/staking", "./precompiles/distribution", "./x/evm/keeper", "./precompiles/ics20"},
 		Quick: []Inst{sd("VerifC05_StateDB", "ops", "3", "kinds", "tdf"), sd("VerifC05_StateDB", "ops", "4", "kinds", "td", "amts", "1"),
 			{Pkg: "precompiles/staking", Fn: "VerifC02_StakingMirror", Params: pm(), EngineReplay: true},
-			{Pkg: "precompiles/distribution", Fn: "VerifC02_DistributionMirror", Params: pm(), EngineReplay: true}},
+			{Pkg: "precompiles/distribution", Fn: "VerifC02_DistributionMirror", Params: pm(), EngineReplay: true},
+			{Pkg: "x/evm/keeper", Fn: "VerifC02_KeeperFlush", Params: pm()}, {Pkg: "precompiles/ics20", Fn: "VerifC04_Ics20", Params: pm(), EngineReplay: true}},
 		Thorough: []Inst{sd("VerifC05_StateDB", "ops", "4", "kinds", "tdf", "amts", "1"), sd("VerifC05_StateDB", "ops", "4", "kinds", "td"),
 			{Pkg: "precompiles/staking", Fn: "VerifC02_StakingMirror", Params: pm(), EngineReplay: true},
-			{Pkg: "precompiles/distribution", Fn: "VerifC02_DistributionMirror", Params: pm(), EngineReplay: true}},
+			{Pkg: "precompiles/distribution", Fn: "VerifC02_DistributionMirror", Params: pm(), EngineReplay: true},
+			{Pkg: "x/evm/keeper", Fn: "VerifC02_KeeperFlush", Params: pm()}, {Pkg: "precompiles/ics20", Fn: "VerifC04_Ics20", Params: pm(), EngineReplay: true}},
 		Bounds: map[string]string{
-			"quick":    "every program of <= 3 operations from {value transfer, SELFDESTRUCT, nested frame} over 3 accounts, and every program of 4 operations from {transfer, SELFDESTRUCT}: after Commit total supply = sum of surviving balances, never above the initial supply, every balance = before + received - paid; staking precompile delegate through the real StateDB and the real method body: signer -> precompile and signer -> contract -> precompile, with / without attached value, delegator = signer or calling contract, contract-internal transfers before and after the call, all balances and amounts symbolic (< 2^100), final Commit, supply and every balance compared with reference bookkeeping; distribution precompile withdrawDelegatorRewards / claimRewards / withdrawValidatorCommission in the same topologies with the payout going to the named account or to a separate withdraw address",
+			"quick":    "every program of <= 3 operations from {value transfer, SELFDESTRUCT, nested frame} over 3 accounts, and every program of 4 operations from {transfer, SELFDESTRUCT}: after Commit total supply = sum of surviving balances, never above the initial supply, every balance = before + received - paid; staking precompile delegate through the real StateDB and the real method body: signer -> precompile and signer -> contract -> precompile, with / without attached value, delegator = signer or calling contract, contract-internal transfers before and after the call, all balances and amounts symbolic (< 2^100), final Commit, supply and every balance compared with reference bookkeeping; distribution precompile withdrawDelegatorRewards / claimRewards / withdrawValidatorCommission in the same topologies with the payout going to the named account or to a separate withdraw address; keeper side: the write-back of one transfer or self-destruct (x/evm/keeper SetAccount / SetBalance / DeleteAccount, either order, any balances and value < 2^128, sender account existing or not) lands the exact balances and conserves the supply; ICS-20 transfer in the same topologies (escrow ledger)",
 			"thorough": "4 operations with frames",
 		},
-		Outside:     []string{"ICS-20 / bank precompiles and staking createValidator (same mirroring structure; not decided here)", "a withdrawal with nothing outstanding (the precompile indexes res.Amount[0] of an empty answer: the transaction panics and is rolled back)", "the EVM interpreter itself (operations are issued directly against the StateDB)", "fees (C07)"},
+		Outside:     []string{"staking createValidator and the werc20 / bank precompiles (not decided here)", "a withdrawal with nothing outstanding (the precompile indexes res.Amount[0] of an empty answer: the transaction panics and is rolled back)", "the EVM interpreter itself (operations are issued directly against the StateDB)", "fees (C07)"},
 		Assumptions: []string{"as C05", "precompile harness: SetAccount mints / burns the balance difference exactly like x/evm/keeper SetBalance; the staking module moves the delegated coins to the bonded pool in the same ledger; the account of the executing contract is cached before the precompile runs (the EVM fetched its code), the signer's only when it attached value"},
 		Stubs:       []string{"sLedger", "c02Bank", "c04Srv (staking message server)", "authz keeper overrides"},
 	}
@@ -225,26 +233,30 @@ func Specs() map[string]*PropSpec {
 	}
 	ps := func(fn string, kv ...string) Inst { return Inst{Pkg: "precompiles/staking", Fn: fn, Params: pm(kv...), EngineReplay: true} }
 	m["C04"] = &PropSpec{
-		ID: "C04", Pkgs: []string{"./precompiles/staking"},
-		Quick:    []Inst{ps("VerifC04_Identity"), ps("VerifC04_Allowance", "steps", "3")},
-		Thorough: []Inst{ps("VerifC04_Identity"), ps("VerifC04_Allowance", "steps", "5")},
+		ID: "C04", Pkgs: []string{"./precompiles/staking", "./precompiles/distribution", "./precompiles/ics20"},
+		Quick: []Inst{ps("VerifC04_Identity"), ps("VerifC04_Allowance", "steps", "3"), {Pkg: "precompiles/distribution", Fn: "VerifC04_Distribution", Params: pm(), EngineReplay: true},
+			{Pkg: "precompiles/ics20", Fn: "VerifC04_Ics20", Params: pm("checkSupply", "0"), EngineReplay: true}},
+		Thorough: []Inst{ps("VerifC04_Identity"), ps("VerifC04_Allowance", "steps", "5"), {Pkg: "precompiles/distribution", Fn: "VerifC04_Distribution", Params: pm(), EngineReplay: true},
+			{Pkg: "precompiles/ics20", Fn: "VerifC04_Ics20", Params: pm("checkSupply", "0"), EngineReplay: true}},
 		Bounds: map[string]string{
-			"quick":    "staking precompile delegate / undelegate for every (signer, caller in {signer, contract}, named account in 3 addresses) relationship x grant state {absent, wrong type, limited, unlimited, other message type} x amount < 2^128 x module accepts/refuses; sequences of <= 3 operations from {approve(x), approve(unlimited), increase(x), decrease(x), revoke, spend(x) by the contract} with symbolic amounts < 2^200",
+			"quick":    "staking precompile delegate / undelegate for every (signer, caller in {signer, contract}, named account in 3 addresses) relationship x grant state {absent, wrong type, limited, unlimited, other message type} x amount < 2^128 x module accepts/refuses; sequences of <= 3 operations from {approve(x), approve(unlimited), increase(x), decrease(x), revoke, spend(x) by the contract} with symbolic amounts < 2^200; distribution withdrawDelegatorRewards / claimRewards / withdrawValidatorCommission / setWithdrawAddress for every (caller, named account) relationship; ICS-20 transfer for every (caller, sender) relationship x channel {granted, existing but not granted, absent} x grant state {absent, wrong type, limited, unlimited, limited with an allow list excluding the receiver} x amount < 2^100 x module accepts/refuses, with ibc-go's own TransferAuthorization.Accept",
 			"thorough": "sequences of <= 5 operations",
 		},
-		Outside:     []string{"distribution and ICS-20 precompiles, redelegate / cancelUnbonding / createValidator (same pattern; not yet harnessed)", "the ERC-20 precompile's approve/transferFrom (not registered in AvailablePrecompiles)", "expiry of grants (the SDK treats an expired grant as absent: contract of the grant-table stub)"},
+		Outside:     []string{"staking redelegate / cancelUnbonding / createValidator (same pattern; not harnessed)", "ICS-20 approve / increase / decrease / revoke (only the spend side of transfer grants is decided)", "the ERC-20 precompile's approve/transferFrom (not registered in AvailablePrecompiles)", "expiry of grants (the SDK treats an expired grant as absent: contract of the grant-table stub)"},
 		Assumptions: []string{"authz keeper replaced by a grant table (Get/Save/DeleteGrant contract of the SDK keeper)", "staking message server replaced by a recorder that accepts or refuses", "event emission and ABI packing replaced by no-ops", "StakeAuthorization.Accept / NewStakeAuthorization / ValidateBasic are the SDK's own code, executed", "counterexamples confirmed by concrete re-execution in the SSA interpreter (concrete SDK keepers cannot be stubbed natively)"},
 		Stubs:       []string{"c04 grant table", "c04Srv", "c04Ledger"},
 	}
 	m["C16"] = &PropSpec{
-		ID: "C16", Pkgs: []string{"./precompiles/staking", "./precompiles/bank"},
-		Quick:    []Inst{ps("VerifC04_Identity"), {Pkg: "precompiles/bank", Fn: "VerifC16_Bank", Params: pm(), EngineReplay: true}},
-		Thorough: []Inst{ps("VerifC04_Identity"), {Pkg: "precompiles/bank", Fn: "VerifC16_Bank", Params: pm(), EngineReplay: true}},
+		ID: "C16", Pkgs: []string{"./precompiles/staking", "./precompiles/bank", "./precompiles/distribution", "./precompiles/ics20"},
+		Quick: []Inst{ps("VerifC04_Identity"), {Pkg: "precompiles/bank", Fn: "VerifC16_Bank", Params: pm(), EngineReplay: true}, {Pkg: "precompiles/distribution", Fn: "VerifC04_Distribution", Params: pm(), EngineReplay: true},
+			{Pkg: "precompiles/ics20", Fn: "VerifC04_Ics20", Params: pm("checkSupply", "0"), EngineReplay: true}},
+		Thorough: []Inst{ps("VerifC04_Identity"), {Pkg: "precompiles/bank", Fn: "VerifC16_Bank", Params: pm(), EngineReplay: true}, {Pkg: "precompiles/distribution", Fn: "VerifC04_Distribution", Params: pm(), EngineReplay: true},
+			{Pkg: "precompiles/ics20", Fn: "VerifC04_Ics20", Params: pm("checkSupply", "0"), EngineReplay: true}},
 		Bounds: map[string]string{
-			"quick":    "staking delegate / undelegate: the message handed to the staking module is exactly the native message with the call's fields, exactly once, nothing handed over on failure (all identity / grant combinations of C04); bank precompile balances / totalSupply / supplyOf over 4 denominations with symbolic registration (2^4) and symbolic amounts",
+			"quick":    "staking delegate / undelegate: the message handed to the staking module is exactly the native message with the call's fields, exactly once, nothing handed over on failure (all identity / grant combinations of C04); distribution methods: the module is asked exactly once for exactly the named account; ICS-20 transfer: the MsgTransfer handed to the transfer module carries exactly the call's port, channel, token, sender, receiver, timeout and memo; bank precompile balances / totalSupply / supplyOf over 4 denominations with symbolic registration (2^4) and symbolic amounts",
 			"thorough": "same",
 		},
-		Outside:     []string{"the module servers themselves (identical object on both sides, their behaviour cancels)", "ABI byte encoding (go-ethereum reflection)", "distribution / ICS-20 precompiles and the staking read-only queries' output converters (not yet harnessed)"},
+		Outside:     []string{"the module servers themselves (identical object on both sides, their behaviour cancels)", "ABI byte encoding (go-ethereum reflection)", "the staking / distribution read-only queries' output converters (not harnessed)", "haqq's ICS-20 wrapper keeper (ERC-20 auto-conversion before the transfer) is behind the overridden Transfer"},
 		Assumptions: []string{"as C04; erc20 keeper's GetCoinAddress / GetERC20Map / GetTokenPair replaced by a registry table; bank keeper stub iterates in denomination order"},
 		Stubs:       []string{"c16Bank", "c16 registry"},
 	}
